@@ -462,6 +462,37 @@ def run(ctx):
     # is awaited, never read again from the AW channel after aw.ready was given
     from .c14 import _axi_lite_port_address
     _axi_lite_port_address(ctx, "B13")
+    # ================================================================ B14 composite bridges forward what they were given
+    ctx.rule("B14", "composite bridges (AXI2Wishbone, Wishbone2AXI, ...): a constructor parameter handed on to an inner bridge binds, by "
+                    "position or keyword resolved against that bridge's own signature, to the parameter of the same meaning -- "
+                    "base_address to base_address; and a base_address that is accepted is used or handed on", min_sites=2)
+    pkg = {}
+    for rel_ in (AL, ALW, AFL, "litex/soc/interconnect/axi/axi_full_to_wishbone.py", "litex/soc/interconnect/axi/axi_full.py"):
+        for c_ in ctx.mod(rel_).tree.body:
+            if isinstance(c_, ast.ClassDef):
+                ini = [f_ for f_ in c_.body if isinstance(f_, ast.FunctionDef) and f_.name == "__init__"]
+                if ini:
+                    pkg[c_.name] = (rel_, c_, ini[0])
+    for cname_, (rel_, c_, ini) in sorted(pkg.items()):
+        params = [a_.arg for a_ in ini.args.args[1:]]
+        if "base_address" not in params:
+            continue
+        used = False
+        for call in [n_ for n_ in ast.walk(ini) if isinstance(n_, ast.Call) and isinstance(n_.func, ast.Name) and n_.func.id in pkg]:
+            callee = [a_.arg for a_ in pkg[call.func.id][2].args.args[1:]]
+            bound = [(callee[k_] if k_ < len(callee) else "?", a_) for k_, a_ in enumerate(call.args)] + [(k_.arg, k_.value) for k_ in call.keywords if k_.arg]
+            for pname, arg in bound:
+                if isinstance(arg, ast.Name) and arg.id == "base_address":
+                    used = True
+                    ok = pname == "base_address"
+                    ctx.ob("B14", rel_, cname_, f"base_address handed to {call.func.id} binds to its base_address", ok,
+                           "" if ok else f"`{norm(call)[:90]}`: base_address lands in parameter `{pname}` of {call.func.id}: the window offset is "
+                                         f"not removed from the addresses and `{pname}` takes a value meant for something else", call)
+        if not used:
+            used = any(isinstance(n_, ast.Name) and n_.id == "base_address" and isinstance(n_.ctx, ast.Load) for n_ in ast.walk(ini))
+            if cname_ in ("AXI2Wishbone", "Wishbone2AXI"):
+                ctx.ob("B14", rel_, cname_, "base_address accepted => used or handed on", used, "" if used else "base_address is accepted and dropped", ini)
+
     # ================================================================ B2 (ext.) self-resetting converter FSMs
     # the down-converter halves reset their FSM "when the master breaks a request": the reset must not be able to fire while the FSM
     # itself offers a response to the master (valid would be withdrawn before ready -- the response is lost, the narrow side hangs) nor
